@@ -95,6 +95,7 @@ func FindAnchors(prog *Program) *Anchors {
 		a.ExecSet, a.ExecBnd = prog.Reachable(a.ExecuteM)
 	}
 	cands := sortedFuncs(a.EvalSet)
+	var coerceCands []*ssa.Function
 	first := func(sig *types.Signature) types.Type {
 		if sig.Params().Len() == 0 {
 			return nil
@@ -113,12 +114,28 @@ func FindAnchors(prog *Program) *Anchors {
 		if p0 == nil || f.Parent() != nil {
 			continue
 		}
+		// the evaluation functions are recognised by the node they take — wherever it stands among the parameters
+		if isBoolErr(sig) {
+			for i := 0; i < sig.Params().Len(); i++ {
+				t := sig.Params().At(i).Type()
+				if namedIs(t, grammarPath, "Expression") || namedIs(t, grammarPath, "MatchExpression") || namedIs(t, grammarPath, "CollectionExpression") {
+					if !(namedIs(t, grammarPath, "MatchExpression") && sig.Params().Len() >= 2 && hasReflectValueParam(sig)) {
+						p0 = t
+					}
+					break
+				}
+			}
+		}
 		switch {
 		case isBoolErr(sig) && namedIs(p0, grammarPath, "Expression") && (a.Dispatch == nil || (a.Dispatch.Signature.Recv() != nil && sig.Recv() == nil)):
 			// the dispatcher is the entry the rest of the package calls: a plain function is preferred over a method it
 			// may delegate to
 			a.Dispatch = f
 		case isBoolErr(sig) && namedIs(p0, grammarPath, "MatchExpression") && sig.Params().Len() >= 2 && namedIs(sig.Params().At(1).Type(), "reflect", "Value"):
+			a.Matchers = append(a.Matchers, f)
+		case isBoolErr(sig) && sig.Recv() == nil && sig.Params().Len() == 2 && namedIs(sig.Params().At(1).Type(), "reflect", "Value") &&
+			(namedIs(p0, grammarPath, "Selector") || namedIs(p0, grammarPath, "MatchValue")):
+			// a matcher narrowed to the part of the expression it reads (its selector for messages, its literal)
 			a.Matchers = append(a.Matchers, f)
 		case isBoolErr(sig) && namedIs(p0, grammarPath, "MatchExpression") && a.MatchEval == nil:
 			a.MatchEval = f
@@ -145,8 +162,33 @@ func FindAnchors(prog *Program) *Anchors {
 			}
 		case sig.Params().Len() == 2 && coerceTabParams(sig) && sig.Results().Len() == 2 && isEmptyIface(sig.Results().At(0).Type()) && isErrorType(sig.Results().At(1).Type()):
 			// (the literal — as the match expression or as its MatchValue — and the kind, in either order)
+			coerceCands = append(coerceCands, f)
 			if a.CoerceTab == nil {
 				a.CoerceTab = f
+			}
+		}
+	}
+	// of several functions with the coercion table's signature the table proper is the one that does not hand the job on to
+	// another of them (a wrapper that adds a message around the table has the signature too)
+	if len(coerceCands) > 1 {
+		isCand := map[*ssa.Function]bool{}
+		for _, f := range coerceCands {
+			isCand[f] = true
+		}
+		for _, f := range coerceCands {
+			wraps := false
+			for _, b := range f.Blocks {
+				for _, ins := range b.Instrs {
+					if c, ok := ins.(*ssa.Call); ok {
+						if g := c.Call.StaticCallee(); g != nil && g != f && isCand[g] {
+							wraps = true
+						}
+					}
+				}
+			}
+			if !wraps {
+				a.CoerceTab = f
+				break
 			}
 		}
 	}
@@ -584,6 +626,8 @@ func (a *Anchors) lookupParams(prog *Program) (datum, path, opts *ssa.Parameter,
 			datum = p
 		case isStringSlice(t) && path == nil:
 			path = p
+		case namedIs(t, grammarPath, "Selector") && path == nil:
+			path = p // the whole selector: its Path is what is looked up
 		case isOptionList(t):
 			opts = p
 		case ot != nil && types.Identical(t, ot):
@@ -657,4 +701,38 @@ func verdictOf(sig *types.Signature, rs []*Sym) (b, e *Sym, ok bool) {
 		return getPath(g, []string{of}), getPath(g, []string{ef}), true
 	}
 	return nil, nil, false
+}
+
+func hasReflectValueParam(sig *types.Signature) bool {
+	for i := 0; i < sig.Params().Len(); i++ {
+		if namedIs(sig.Params().At(i).Type(), "reflect", "Value") {
+			return true
+		}
+	}
+	return false
+}
+
+// evalParams: the parameters of an evaluation function (dispatcher, match evaluator, collection evaluator) by role: the
+// node it evaluates, the datum (interface{}), the options (the last parameter).
+func evalParams(fn *ssa.Function) (node, datum, opts *ssa.Parameter) {
+	ps := fn.Params
+	if fn.Signature.Recv() != nil && len(ps) > 0 {
+		ps = ps[1:]
+	}
+	for _, p := range ps {
+		t := p.Type()
+		switch {
+		case node == nil && (namedIs(t, grammarPath, "Expression") || namedIs(t, grammarPath, "MatchExpression") || namedIs(t, grammarPath, "CollectionExpression")):
+			node = p
+		case datum == nil && isEmptyIface(t):
+			datum = p
+		}
+	}
+	if len(ps) > 0 {
+		opts = ps[len(ps)-1]
+		if opts == node || opts == datum {
+			opts = nil
+		}
+	}
+	return
 }
